@@ -181,8 +181,17 @@ def cases(tier, rng):
                 yield {'tol': tol, 'ctx': 'default', 's': a + b, 'rewalk': [0, len(a)]}
                 yield {'tol': tol, 'ctx': 'default', 's': a + b + a + b, 'rewalk': [0, len(a), len(a + b), len(a + b + a)]}
 
+    # math environments declared in every documented spelling (pylatexenc-2: is_math_mode=True with an argument string, an
+    # arguments-parser object, std_environment; pylatexenc-3: body_parsing_state_delta): the body is math whatever the spelling
+    for name in ['mathA', 'mathB', 'mathC', 'mathD', 'mathE', 'mathF']:
+        arg = '{2}' if name in ('mathA', 'mathC', 'mathE', 'mathF') else ''
+        for body in [' a \\text{b $c$} d', 'x', '\\alpha {y} $z$', '', ' \\textbf{q} ']:
+            for wrapo, wrapc in [('', ''), ('\\textbf{', '}'), ('$z$ {', '}'), ('\\text{', '}')]:
+                for tol in (False, True):
+                    yield {'tol': tol, 'ctx': 'default', 's': 'x ' + wrapo + '\\begin{%s}%s%s\\end{%s}' % (name, arg, body, name) + wrapc + ' y', 'mathenvdb': True}
+
 def to_line(c):
-    if c.get('legcall') is not None or c.get('legparser') or c.get('afterdb') or c.get('rewalk'):
+    if c.get('legcall') is not None or c.get('legparser') or c.get('afterdb') or c.get('rewalk') or c.get('mathenvdb'):
         return None
     return parsecase.to_line(c)
 
@@ -206,6 +215,27 @@ def legacy_parser_db():
         _LEGDB.append(db)
     return _LEGDB[0]
 
+_MENVDB = []
+def math_env_db():
+    if not _MENVDB:
+        from pylatexenc import latexwalker, macrospec
+        from pylatexenc.latexnodes import ParsingStateDeltaEnterMathMode
+        S = macrospec.MacroStandardArgsParser
+        db = latexwalker.get_default_latex_context_db()
+        db.add_context_category('math-envs', prepend=True, environments=[
+            macrospec.EnvironmentSpec('mathA', '{', is_math_mode=True),
+            macrospec.EnvironmentSpec('mathB', args_parser=S(''), body_parsing_state_delta=ParsingStateDeltaEnterMathMode()),
+            macrospec.EnvironmentSpec('mathC', args_parser=S('{'), is_math_mode=True),
+            macrospec.EnvironmentSpec('mathD', S(''), is_math_mode=True),
+            macrospec.std_environment('mathE', '{', is_math_mode=True),
+            macrospec.EnvironmentSpec('mathF', args_parser='{', is_math_mode=True)])
+        cj = dict(ctx_json('default'))
+        cj['e'] = dict(cj['e'])
+        for n in ('mathA', 'mathB', 'mathC', 'mathD', 'mathE', 'mathF'):
+            cj['e'][n] = (None, True)
+        _MENVDB.append((db, cj))
+    return _MENVDB[0]
+
 _AFTDB = []
 def after_delta_db():
     if not _AFTDB:
@@ -224,6 +254,18 @@ def after_delta_db():
 def run_legacy(c):
     """legacy calls with an explicit state: every returned node records that state's mode, and so on downwards"""
     from pylatexenc import latexwalker
+    if c.get('mathenvdb'):
+        from pylatexenc.latexnodes import parsers
+        db, cj = math_env_db()
+        w = latexwalker.LatexWalker(c['s'], latex_context=db, tolerant_parsing=c['tol'])
+        try:
+            nl, _ = w.parse_content(parsers.LatexGeneralNodesParser())
+        except latexwalker.LatexWalkerParseError:
+            return {'out': 'ERR', 'fail': None, 'sig': 'mathenvdb:err'}
+        seen = set()
+        r = check_modes(list(nl or []), (False, None), cj, seen)
+        return {'out': dump.dump_result(nl), 'fail': {'kind': 'mode-differs-from-implied', 'detail': 'math environments declared in the documented spellings, %r: %s' % (c['s'], r)} if r else None,
+                'sig': 'mathenvdb:' + ','.join(sorted(seen))}
     if c.get('rewalk'):
         from pylatexenc.latexnodes import parsers
         w = latexwalker.LatexWalker(c['s'], tolerant_parsing=c['tol'])
@@ -358,7 +400,7 @@ def ctx_json(ctx):
 
 def run_impl(c):
     from pylatexenc.latexnodes import nodes as N
-    if c.get('legcall') is not None or c.get('legparser') or c.get('afterdb') or c.get('rewalk'):
+    if c.get('legcall') is not None or c.get('legparser') or c.get('afterdb') or c.get('rewalk') or c.get('mathenvdb'):
         return run_legacy(c)
     w, kind, p = parsecase.parse(c)
     out = parsecase.show_result(kind, p)
